@@ -208,9 +208,12 @@ def check(ctx):
     from . import c02
     sub = SubCtx(ctx)
     c02.check_users(sub)
+    c02.check_nodes(sub)        # ... and every node of the compiled expression computes its operator at (species, params, time)
     for rule, key, ok, where, what, detail in sub.got:
         if rule == 'R2.1-users' and key.startswith('GeneralPropensity'):
             ctx.ob('R4.4-rate-laws', '%s/%s' % (rule, key), ok, where, what, detail)
-    ctx.floor('R4.4-rate-laws', 43)
+        if rule == 'R2.1-node-semantics' and key.endswith('.evaluate'):
+            ctx.ob('R4.4-rate-laws', '%s/%s' % (rule, key), ok, where, what, detail)
+    ctx.floor('R4.4-rate-laws', 55)
     ctx.floor('R4.1-rhs', 1)
     ctx.floor('R4.3-odeint-call', 3)
